@@ -21,7 +21,8 @@ CHECKS['C02'] = dict(
    note='Trusted: TLC, CommunityModules, g++; TeakDecodeTable.tla (transcribed once from the pinned decoder.h, frozen). '
         'Execution clause: every first word that takes a second word is executed by the real interpreter from random states '
         '(pc in all four 64K banks and across their boundaries) and validated in full against CoreCycle; one-word '
-        'instructions are covered by the sweep of C01.',
+        'instructions are covered by the sweep of C01. Generator clause: real GenerateTestCasesToFile vectors (one per enabled opcode, all '
+        'in the thorough tier) must carry a second word exactly when the table says so and execute with the decoded length.',
    technique='TLA+ spec + TLC exhaustive enumeration + TLC validation of total decode dumps from the real code')
 CHECKS['C01'] = dict(
    text='The reference semantics is an explicit TLA+ specification of the whole instruction set (332 handler overloads, decode, '
@@ -129,7 +130,9 @@ CHECKS['C07'] = dict(
    text='All interleavings of trigger/acknowledge/route/mask/enable operations and instruction boundaries are explored by TLC on a model '
         'built from the same ICU and interrupt-entry operators the trace specifications use, against exactly-once, priority, no-spurious, '
         'stay-latched and request-bit properties; interrupt-heavy guest programs are single-stepped on a real Teakra and every boundary is '
-        'validated in full.',
+        'validated in full; the same kinds of programs are also run in slices (idle fast-forward active; short auto-restart timers, line and '
+        'vectored routing), and every encoding of the instructions that touch the interrupt state (enable/disable, return forms, status-word '
+        'movers) is validated from random states with random latches.',
    design_ref='5.7',
    note='Trusted: TLC, CommunityModules, g++. The model uses 2 IRQ sources x 3 lines (thorough) / 1 source (quick); the IRQ numbers of '
         'audio port, mailbox and DMA are bound by the C16/C14/C13 traces.',
@@ -179,7 +182,7 @@ CHECKS['C17'] = dict(
    text='The complete observation vector of the machine is the modelled state; in the states fresh / fresh+Reset / history+Reset the '
         'specification is in the single state FreshReset (a constant for everything but MMIO read-back). Recorded executions on '
         'polluted heaps are validated by TLC, which computes the differing observation groups; the same history replayed after Reset '
-        'and on a fresh instance must coincide (including the hidden AHBM burst FIFOs and the external-memory traffic); two processes must produce identical streams; a component-level reset model is checked '
+        'and on a fresh instance must coincide (including the hidden AHBM burst FIFOs, the external-memory traffic and the ownership of the DSP memory); every other instance is created through the C binding, operator new hands out junk-filled memory, a crash is a violation; Teakra::Reset between slices of guest programs must equal System.tla's reset; two processes must produce identical streams; a component-level reset model is checked '
         'exhaustively (what Reset covers vs what C17 demands).',
    design_ref='5.17',
    note='Trusted: TLC, CommunityModules, g++. Histories are sampled. One known finding (MMIO backing storage survives Reset) is listed '
